@@ -151,11 +151,17 @@ def run_impl(lines, binary=None, timeout=1800, nproc=4):
     nshards = min(nproc, max(1, len(lines) // 50))
     shards = [lines[i::nshards] for i in range(nshards)]
     def one(k):
-        p = subprocess.run([binary], input="\n".join(shards[k]) + "\n", stdout=subprocess.PIPE, stderr=subprocess.PIPE, text=True, timeout=timeout, env=ENV)
-        rows = [[int(x) for x in l.split()] for l in p.stdout.splitlines()]
+        rows, err, todo = [], "", shards[k]
+        while todo:
+            p = subprocess.run([binary], input="\n".join(todo) + "\n", stdout=subprocess.PIPE, stderr=subprocess.PIPE, text=True, timeout=timeout, env=ENV)
+            got = [[int(x) for x in l.split()] for l in p.stdout.splitlines()]
+            rows += got; err += p.stderr
+            # exit code 75: the harness answered its last case and asks for a fresh process (a worker thread could not be joined)
+            if p.returncode == 75 and got: todo = todo[len(got):]
+            else: break
         if len(rows) != len(shards[k]):
             rows += [None] * (len(shards[k]) - len(rows))
-        return rows, p.stderr
+        return rows, err
     with ThreadPoolExecutor(nshards) as ex:
         parts = list(ex.map(one, range(nshards)))
     out = [None] * len(lines)
